@@ -2,7 +2,7 @@
    Only statements, each closed by `exact`, with Print Assumptions. *)
 From Coq Require Import NArith List Bool.
 From Coq Require Import ZArith.
-From PS Require Import Base.Chars Base.Outcome Model.SString Model.Slice Spec.Items Proofs.SStringP Proofs.ConvertP Proofs.SliceP Proofs.QuoteP.
+From PS Require Import Base.Chars Base.Outcome Model.SString Model.Slice Spec.Items Proofs.SStringP Proofs.ConvertP Proofs.SliceP Proofs.QuoteP Model.FieldName Proofs.FieldNameP.
 Import ListNotations.
 
 (* the parser of SigmaString.__init__ reads a source string exactly as the specification's
@@ -78,6 +78,20 @@ Theorem C05_slice_inner_refuted : exists v r,
   getitem v (Some 1%Z) (Some 2%Z) = Ok r /\ items r <> firstn 1 (skipn 1 (items v)).
 Proof. exists [PStr [97%N; c_star; 98%N]]. eexists. split; [reflexivity|]. vm_compute. discriminate. Qed.
 Print Assumptions C05_slice_inner_refuted.
+
+(* a rendered field name decodes to the original name: whenever the escape pattern covers the
+   escape character itself and a quoted name has its quote characters escaped (or contains none) *)
+Theorem C05_field_roundtrip : forall K ec pat, f_escape K = Some [ec] -> forall qd f,
+  esc_covered ec pat 0 f ->
+  (forall x, f_quote K = Some x -> qd = true -> x <> ec /\ (f_escape_quote K = true \/ ~ In x f)) ->
+  fread (Some ec) (f_quote K) (match f_quote K with Some _ => qd | None => false end)
+        (escape_and_quote_field K pat qd f) = Some f.
+Proof. exact field_roundtrip. Qed.
+Print Assumptions C05_field_roundtrip.
+Theorem C05_field_quote_unescaped_refuted : exists f,
+  fread None (Some 39%N) true (escape_and_quote_field test_backend_fcfg (fun _ => false) true f) <> Some f.
+Proof. exact field_quote_unescaped_refuted. Qed.
+Print Assumptions C05_field_quote_unescaped_refuted.
 
 (* non-vacuity: the premises are met by a non-trivial configuration and value *)
 Example C05_premises_inhabited :
